@@ -2,6 +2,8 @@ import LZ4V.Judge.Block
 import LZ4V.Spec.Frame
 import Std.Data.HashMap
 import LZ4V.Model.FrameC
+import LZ4V.Model.FrameD
+import LZ4V.Spec.FrameLExec
 /-!
 # Judge for frame records
 
@@ -146,6 +148,27 @@ def judgeFrameDec (blobs : Std.HashMap Nat ByteArray) (r : Rec) : Verdict := Id.
     let cls := badClass e
     v := { v with tags := [s!"dec.rejected.{cls}", if verdict == 1 then "real.error" else "real.incomplete"] }
     -- a truncated input must not be reported as an error class that hides data loss... both "error" and "needs more input" are acceptable
+  -- the model of LZ4F_decodeHeader (Model/FrameD.lean, proved equivalent to the specification) on the same bytes:
+  -- same acceptance, and on rejection the same LZ4F error code
+  if bytes.size ≥ 7 && rdLE bytes 0 4 == 0x184D2204 then
+    let realErr := if r.args.size > 6 then r.nat 6 else 0
+    match LZ4V.Model.FrameD.decodeHeader LZ4V.Spec.FrameL.xxhEnv.hash (bytes.toList.take 19) with
+    | .error e =>
+      let want := match e with
+        | .frameHeader_incomplete => LZ4V.Gen.LZ4F_ERROR_frameHeader_incomplete | .frameType_unknown => LZ4V.Gen.LZ4F_ERROR_frameType_unknown
+        | .reservedFlag_set => LZ4V.Gen.LZ4F_ERROR_reservedFlag_set | .headerVersion_wrong => LZ4V.Gen.LZ4F_ERROR_headerVersion_wrong
+        | .maxBlockSize_invalid => LZ4V.Gen.LZ4F_ERROR_maxBlockSize_invalid | .headerChecksum_invalid => LZ4V.Gen.LZ4F_ERROR_headerChecksum_invalid
+      if verdict != 1 then v := { v with fails := ("model_header_differs", s!"model rejects the header ({repr e}), real verdict={verdict}") :: v.fails }
+      else if r.args.size > 6 && realErr != want then v := { v with fails := ("model_header_differs_errcode", s!"model {repr e} (code {want}), real LZ4F error code {realErr}") :: v.fails }
+      v := { v with tags := s!"hdrmodel.reject" :: v.tags }
+    | .ok (.needMore _) =>
+      if verdict == 0 then v := { v with fails := ("model_header_differs", "model needs more header bytes, real decoder reports completion") :: v.fails }
+      v := { v with tags := "hdrmodel.needmore" :: v.tags }
+    | .ok (.done _ _) =>
+      let hdrErr := r.args.size > 6 && verdict == 1 && (realErr == LZ4V.Gen.LZ4F_ERROR_reservedFlag_set || realErr == LZ4V.Gen.LZ4F_ERROR_headerVersion_wrong ||
+                      realErr == LZ4V.Gen.LZ4F_ERROR_headerChecksum_invalid || realErr == LZ4V.Gen.LZ4F_ERROR_frameType_unknown)   -- (maxBlockSize_invalid is also the "block too large" error)
+      if hdrErr then v := { v with fails := ("model_header_differs", s!"model accepts the header, real decoder rejects it with header error code {realErr}") :: v.fails }
+      v := { v with tags := "hdrmodel.accept" :: v.tags }
   return v
 
 def judgeGenFunc (r : Rec) : Verdict := Id.run do
